@@ -152,6 +152,12 @@ CLAIMED = {
         technique="field coverage + guard dominance + per-arm error-variant tables (aggregates within HIR arm spans)",
         design_ref="DESIGN.md section 4 C31",
     ),
+    "C32": dict(
+        level="other",
+        text="Structural necessary conditions only; the numeric content of the envelopes, the 1% alignment tolerance and floating-point identities are NOT decided. Decided: (1) the sample count is round(duration * sample_rate) -- one rounding call on exactly that product in raw_resolve_with_sample_rate, carried unchanged into the explicit parameters and the partial value, passed on unchanged by both resolvers; (2) every length in the module (IqSamples::Flat.sample_count, vec![x; n], repeat_n, the time-step range, partial payloads), with closure captures and closure arguments substituted at every call site, is exactly that count -- plus exactly ceil(pad_left*rate) and ceil(pad_right*rate) in the two padded waveforms, chained as left zeros . samples . right zeros -- and no sample-producing iterator uses a length-changing adaptor; (3) every sample vector is rewritten element by element, unconditionally, with apply_phase_and_detuning_at_index(scale * sample, phase, detuning, rate, index), the helpers have the shape iq * cis(2*pi*(detuning*index/rate + phase)), Flat and BoxcarKernel feed scale and phase into both their flat and their detuned branch; (4) a zero-scale fast path is taken exactly under eval_real(scale) == Ok(0.0), in the partial and the total branch, and yields Flat{0}; (5) the concrete and the partial entry point of each of the 7 waveform kinds call the same generic implementation with unchanged arguments, the enum dispatches forward every variant to its own implementation, IqSamples::sample_count reads the stored count / vector length.",
+        technique="origin-expression provenance of lengths with closure capture/argument substitution (MIR), control dependence of per-element rewrites and fast paths, algebraic shape matching of helper bodies, sibling agreement of trait wrappers",
+        design_ref="DESIGN.md section 10.7 (C32 partial claim)",
+    ),
     "C33": dict(
         level="other",
         text="Template conformance of Program::wrap_in_loop read from the un-expanded source: early returns for 0 and 1; otherwise DECLARE counter INTEGER, MOVE counter <- iterations, LABEL start, <body>, SUB counter 1, JUMP-WHEN start counter in this order on a clone_without_body_instructions of self, all counter operands naming the caller's reference; clone_without_body_instructions clones every non-body field. The step from this template to 'body runs exactly n times' is a fixed four-line argument; execution itself is not decided.",
@@ -215,16 +221,14 @@ CLAIMED = {
 }
 
 NOT_APPLICABLE = {
-    "C32": "numerical identities of floating-point sample computations over real-valued durations/rates; nothing structural that is a necessary condition in the required sense (DESIGN.md section 6)",
 }
-
 
 
 # clauses added after the first version of each check (red-team misses, defects found); appended to the texts above
 ADDENDA = {
     "C02": " Also: a present optional field is printed whatever it contains (no Some-discarding adaptor, emission controlled only by the Option being Some); a writer that separates elements with commas has a parser accepting COMMA.",
-    "C03": " Also: whole real parts written as bare digit strings (trim_floats below 10^break) fit the lexer's integer token width.",
-    "C04": " Also: the literal rule shared with C02; positions printed with format_complex need a parser that accepts a sign and a sum (CALL immediates: sign repaired, two-part values a known finding); an expression printed directly after a qubit list is grouped by the writer (DELAY, repaired).",
+    "C03": " Also: whole real parts written as bare digit strings (trim_floats below 10^break) fit the lexer's integer token width; the Prefix arm never prints its operand bare and the Infix arm prints both operands through the grouping printer; the identifier parser tries `name[index]` before the keyword table while MemoryReference always prints its brackets.",
+    "C04": " Also: the literal rule shared with C02; positions printed with format_complex need a parser that accepts a sign and a sum (CALL immediates: sign repaired, two-part values a known finding); an expression printed directly after a qubit list is grouped by the writer for every expression kind whose text starts with a token the qubit parser accepts (DELAY, repaired twice); a to_quil()/to_quil_or_debug() call on a value of generic type inside a flag-taking helper counts as one on a placeholder-carrying value.",
     "C05": " Also: a literal is negated only under a test of the sign token being Operator::Minus; the float Eq/Hash helpers used for interning Expression numbers are exact (no ordering comparison, arithmetic or tolerance).",
     "C06": " Also: taking a name apart (split/strip/truncate family) before storing it counts as normalisation (one named exception: Pauli words decoded into PauliGate values).",
     "C07": " Also: no writer re-processes the serialized text of a nested value (split/lines/replace/trim): repaired for DEFCIRCUIT bodies.",
@@ -242,10 +246,10 @@ ADDENDA = {
     "C25": " Also: TimeSpan::union decided path by path (start = min of starts, end = max of ends, justified by the path's comparisons); the calibrated index map and span merge of BasicBlock::as_schedule.",
     "C26": " Also: each side of FrameSet::filter is evaluated whenever its condition is present (no Some-discarding adaptor, unconditional evaluation).",
     "C27": " Also: the CALL table: for (return slot | loop) x (MemoryReference | Identifier) x (reads | writes) the insertion happens under exactly the expected controlling conditions (writes of loop arguments only additionally under `mutable`).",
-    "C30": " Also: every declaration lookup in the type checker (18 sites) reports UndefinedMemoryReference when the region is not declared.",
-    "C31": " Also: the argument-count comparison uses the plain argument count (no lossy arithmetic) against parameters plus the return slot; a mutable parameter is printed with `mut` on every path, whatever its type.",
-    "C33": " Also: MOVE, SUB and JUMP-WHEN address the same memory cell (the caller's reference) and the declared length covers its index (repaired); the early returns are decided on the MIR paths.",
-    "C35": " Also: simplify never reads the unexpanded body; CALL names are collected in the loop over the expanded body.",
+    "C30": " Also: every declaration lookup in the type checker (18 sites) reports UndefinedMemoryReference when the region is not declared; a number literal is rejected exactly when |imaginary part| is non-zero (sign-symmetric test, error on the non-zero side).",
+    "C31": " Also: a MemoryReference or Immediate argument is accepted for ExternParameterType::Scalar only (decision read from the match in the arm or from the Option/Result helper called on data_type). Also: the argument-count comparison uses the plain argument count (no lossy arithmetic) against parameters plus the return slot; a mutable parameter is printed with `mut` on every path, whatever its type.",
+    "C33": " Also: MOVE, SUB and JUMP-WHEN address the same memory cell (the caller's reference) and the declared length covers its index (repaired); the early returns are decided on the MIR paths; add_instruction stores a DECLARE by an unconditional insert, so the generated declaration replaces an existing one.",
+    "C35": " Also: simplify never reads the unexpanded body; CALL names are collected in the loop over the expanded body; the three pruning steps (frames, waveforms, extern pragmas) run on every path.",
     "C20": " Also: the referenced set is filled under a transitive reachability query; errors are raised only for selected invocations.",
     "C21": " Also: every effect of an iteration (extend / push / entry push) is unconditional within its arm; both Program-level entry points return the program they built.",
     "C29": " A traversal that prunes paths is reported as undecided, never as a violation.",
